@@ -208,7 +208,7 @@ def switch_arrays(T, always_on=False):
     return on, idx
 
 
-def make_plane_source(cls_name, shape, cfg, axis, direction, T, gated=False, complex_profile=False, name=None):
+def make_plane_source(cls_name, shape, cfg, axis, direction, T, gated=False, complex_profile=False, name=None, h_filter=False):
     """REAL UniformPlaneSource/GaussianPlaneSource/ModePlaneSource object with symbolic incident
     profiles (the result of `apply`, an assumed contract: shapes (3,*grid_shape))."""
     import fdtdx
@@ -233,6 +233,9 @@ def make_plane_source(cls_name, shape, cfg, axis, direction, T, gated=False, com
     src = src.aset("_H", A.fresh_array("srcH", (3, *gshape), kind), create_new_ok=True)
     src = src.aset("_time_offset_E", A.fresh_array("toE", (3, *gshape)), create_new_ok=True)
     src = src.aset("_time_offset_H", A.fresh_array("toH", (3, *gshape)), create_new_ok=True)
+    if h_filter:
+        # dispersive scenes: precomputed broadband-corrected H-side temporal profile (arbitrary samples)
+        src = src.aset("_temporal_H_filter", A.fresh_array("temporal_H_filter", (T,)), create_new_ok=True)
     on, idx = switch_arrays(T, always_on=False)
     src = src.aset("_is_on_at_time_step_arr", on, create_new_ok=True)
     src = src.aset("_time_step_to_on_idx", idx, create_new_ok=True)
